@@ -2,13 +2,14 @@
 //vp:pkg ./tsdb/wlog
 //vp:roots ./util/compression io
 //vp:budget steps=40000000 alloc=400000
-//vp:bounds WL.Log / log / flushPage (writer) followed by wlog.Reader (reader) over an in-memory segment file: a first record of concrete zero bytes sized so that rem in {0,3,6,7,8,9,12,20} bytes remain in the 32 KiB page, then a second record of n in {0,1,5,13} arbitrary bytes (so it fits, exactly fits, or is split First/Last across the page boundary), optionally a third 2-byte record; a second harness writes a record of concrete zero bytes spanning 1..2 further full pages whose end lies exactly at, one byte before or one byte after a page end, followed by an arbitrary 2-byte record; checksums are an uninterpreted function (identical terms on both sides)
+//vp:bounds WL.Log / log / flushPage (writer) followed by wlog.Reader (reader) over an in-memory segment file: a first record of concrete zero bytes sized so that rem in {0,3,6,7,8,9,12,20} bytes remain in the 32 KiB page, then a second record of n in {0,1,5,13} arbitrary bytes (so it fits, exactly fits, or is split First/Last across the page boundary), optionally a third 2-byte record; a third harness tails the same kind of log with the real LiveReader while the file is cut at every byte offset 0..48 of the tail first (partial flush) and complete afterwards; a second harness writes a record of concrete zero bytes spanning 1..2 further full pages whose end lies exactly at, one byte before or one byte after a page end, followed by an arbitrary 2-byte record; checksums are an uninterpreted function (identical terms on both sides)
 //vp:assume single segment (segment size 4 pages: nextSegment is never needed), no compression, writes to the segment file succeed
 package wlog
 
 import (
 	"bytes"
 	"errors"
+	"io"
 	"os"
 
 	"github.com/prometheus/prometheus/util/compression"
@@ -106,5 +107,72 @@ func vpH_C13_wal_multipage_fill() {
 	}
 	vpAssert(!r.Next(), "nothing after the last record")
 	vpAssert(r.Err() == nil, "clean end of log")
+	vpReach("end")
+}
+
+type vpXGrowReader struct {
+	data       []byte
+	avail, pos int
+}
+
+func (r *vpXGrowReader) Read(p []byte) (int, error) {
+	if r.pos >= r.avail {
+		return 0, io.EOF
+	}
+	n := copy(p, r.data[r.pos:r.avail])
+	r.pos += n
+	return n, nil
+}
+
+// A live reader tailing the log sees a partial flush first (the file cut at an arbitrary byte of the
+// tail), then the rest: it returns the same records, in order, none skipped or duplicated, and never
+// reports corruption for a record that is merely incomplete.
+func vpH_C13_live_reader_partial_flush() {
+	rem := []int{0, 7, 8, 20}[vpShape("rem", 0, 3)]
+	n := []int{1, 13}[vpShape("n", 0, 1)]
+	file := &vpXMemFile{}
+	w := &WL{segmentSize: 4 * pageSize, page: &page{}, segment: &Segment{SegmentFile: file}, compress: compression.None}
+	w.metrics = newWLMetrics(w, nil)
+	rec0 := make([]byte, pageSize-recordHeaderSize-rem)
+	rec1 := make([]byte, n)
+	for i := range rec1 {
+		rec1[i] = vpByte()
+	}
+	rec2 := []byte{vpByte(), vpByte()}
+	vpAssert(w.Log(rec0) == nil, "Log succeeds")
+	base := len(file.data)
+	vpAssert(w.Log(rec1, rec2) == nil, "Log succeeds")
+	tail := len(file.data) - base
+	cut := base + vpShape("cut", 0, 48)
+	if cut > len(file.data) {
+		cut = len(file.data)
+	}
+	vpObserve("tail", tail)
+	src := &vpXGrowReader{data: file.data, avail: cut}
+	lr := NewLiveReader(nil, NewLiveReaderMetrics(nil), src)
+	var got [][]byte
+	for phase := 0; phase < 2; phase++ {
+		for lr.Next() {
+			got = append(got, append([]byte(nil), lr.Record()...))
+			if len(got) > 4 {
+				break
+			}
+		}
+		vpAssert(lr.Err() == io.EOF, "an incomplete tail is reported as end of data, not as corruption")
+		src.avail = len(file.data)
+	}
+	want := [][]byte{rec0, rec1, rec2}
+	vpObserve("records", len(got))
+	vpAssert(len(got) == len(want), "every record exactly once")
+	if len(got) == len(want) {
+		for k := range want {
+			vpAssert(len(got[k]) == len(want[k]), "record length")
+			if k > 0 && len(got[k]) == len(want[k]) {
+				for i := range want[k] {
+					vpAssert(got[k][i] == want[k][i], "record bytes as written")
+				}
+			}
+		}
+	}
 	vpReach("end")
 }
